@@ -200,6 +200,16 @@ impl Prop for C01 {
         if r.chance(80) {
             return gen_macro_cancel(&mut r, seed);
         }
+        if r.chance(60) {
+            // dynamic macros: recordings that stop by themselves at the size limit (also with
+            // keys held at that moment), nested and self-referencing replays; afterwards every
+            // key is up and nothing may stay pressed
+            let pop = *r.pick(&["limit", "limit", "identity", "selfplay"]);
+            let mut c = super::c19::gen_c19(seed, Some(pop));
+            c.prop = "C01".into();
+            c.set("pop", "dynamic-macro");
+            return c;
+        }
         let pressure = r.chance(150);
         let o = GenOpts {
             feats: feat::ALL_RUNTIME & !feat::DELAY,
@@ -354,6 +364,10 @@ impl Prop for C01 {
         }
         if self_retrigger {
             tags.push("self-retriggering-action".into());
+        }
+        if st.probes.dyn_replay_starts >= st.probes.dyn_replay_starts_at_last_input + 3 {
+            // the same recording was replayed three or more times after the last input event
+            tags.push("dynamic-macro-retriggers-itself".into());
         }
         if !d.is_empty() && d.keys.iter().all(|k| k.starts_with("code")) {
             tags.push("stuck:custom-outputs-only".into());
